@@ -7,6 +7,7 @@ package leak
 
 import (
 	"fmt"
+	"github.com/junioryono/godi/v4/verifh/web"
 	"math/rand"
 	"os"
 	"runtime"
@@ -243,6 +244,12 @@ func run(c *eng.Ctx) {
 			c.R.Begin(idx)
 			nt := runCreateCloseSteered(c, idx)
 			c.R.End(idx, eng.Hash("c14-steered"), nt)
+		}
+		// the scope middleware installed on two levels of one route, every web integration:
+		// nothing of either level's scope survives the request
+		{
+			n := len(list) + 8
+			web.RunNestedInstall(c, "C14", func() (int, bool) { i := n; n++; return i, c.Mine(i) })
 		}
 		if idx := len(list) + 7; c.Mine(idx) {
 			settle(procBase)
